@@ -147,16 +147,12 @@ WalkClauses(tr, it) ==
               ELSE WalkSeq(T, it.x, it.on, it.back, it.rec, it.self, F)
       notself(s) == SelectSeq(s, LAMBDA e : e.n # it.x)
       isself(s)  == SelectSeq(s, LAMBDA e : e.n = it.x)
-      (* signature of one specific deviation: the only wrong yield is an extra, unfiltered leave of the walk root *)
-      sig  == IF it.x \notin F /\ it.self /\ isself(want) = <<>> /\ isself(obs) = <<Ev(it.x, TRUE)>>
-                 /\ obs[Len(obs)] = Ev(it.x, TRUE)
-              THEN "/extraleave" ELSE ""
   IN IF (it.on = "both" /\ Len(it.lv) # Len(it.seq)) \/ it.x \notin 1..tr.n
      THEN {Cl("Walk.NodesOfTree", k, FALSE)}
      ELSE { Cl("Walk.NodesOfTree", k, \A i \in 1..Len(it.seq) : it.seq[i] \in 1..tr.n),
             Cl("Walk.EqSpec.body", k, notself(obs) = notself(want)),
             (* the yields of the walk root itself: same events, the enter first and the leave last *)
-            Cl("Walk.EqSpec.self", k \o sig, /\ isself(obs) = isself(want)
+            Cl("Walk.EqSpec.self", k, /\ isself(obs) = isself(want)
                                       /\ \A i \in 1..Len(obs) : obs[i].n = it.x =>
                                            IF obs[i].lv THEN i = Len(obs) ELSE i = 1) }
           \cup (IF it.full THEN DirectClauses(tr, it, k) ELSE {})
